@@ -4,7 +4,7 @@ PROP = dict(
         quick=dict(n=1200, len=50, shards=8, timeout=300),
         thorough=dict(n=24000, len=80, shards=16, timeout=1500),
         # monitors / mismatch fields of the shared `accounts` engine that belong to C04
-        flag_filter=r"^(c04\.|no_overdraft|budget_iff|commit_exact|rollback_refunds|failed_commit_keeps_reservation|failed_reservation_refunds|reservation_eq|ledger_eq|metrics_eq/|mixed_protocol_reservation|no_double_spend|no_panic)",
+        flag_filter=r"^(c04\.|accounts_listing|no_overdraft|budget_iff|commit_exact|rollback_refunds|failed_commit_keeps_reservation|failed_reservation_refunds|reservation_eq|ledger_eq|metrics_eq/|mixed_protocol_reservation|no_double_spend|no_panic)",
         nontrivial=r"^(budget|commit|rollback|rhp4debit|credit) .*res=ok", min_ops=8, min_kinds=3,
         shrink_budget=80,
         trusted_base=COMMON_TB + [
